@@ -83,6 +83,7 @@ def run(prop, tier, seed, replay=None):
         specs += [F.gen_scenario(seed * 31 + k, "long") for k in range(2 if tier == "quick" else 12)]
         if prop in ("C11", "C03"):
             specs += [F.lag_scenario(seed, "replay"), F.lag_scenario(seed + 1, "live")]
+            specs += [F.slow_reader_scenario(seed * 13 + k) for k in range(4 if tier == "quick" else 24)]
         if prop in ("C02", "C03"):
             specs += [F.stress_scenario(seed + k, writers=8, per=100 if tier == "quick" else 400) for k in range(1 if tier == "quick" else 4)]
     results = F.run_all(specs)
